@@ -82,6 +82,9 @@ def gen_cases(tier, seed):
         if q and (eng, method) in (("langevin", "PM3"), ("xl", "AM1")):
             continue
         cases.append({"kind": "identity", "engine": eng, "method": method, "grid": grid(n if q else 3 * n), "geom_seed": s()})
+    if not q:
+        for m_ in ("HCN", "CH3Cl", "H2S"):
+            cases.append({"kind": "identity", "engine": "sh", "method": "AM1", "sh_mol": m_, "grid": grid(4), "geom_seed": s()})
     ens = [("langevin", 0.2, 1.0, 300.0), ("xl", 0.5, 0.2, 1000.0), ("langevin", 1.0, 50.0, 50.0), ("ksa", 0.1, 0.01, 300.0)]
     if not q:
         ens += [("sh", 0.1, 2.0, 300.0), ("langevin", 0.05, 500.0, 2000.0), ("xl", 0.2, 0.02, 10.0)]
@@ -218,7 +221,8 @@ def _identity(case):
     acc = _Acc()
     eng = case["engine"]
     g = np.random.default_rng(case["geom_seed"])
-    names = BATCHES[case["method"]] if eng != "sh" else ["CH2O", "H2O", "NH3"]
+    # surface hopping only accepts homogeneous batches (basics.py raises NotImplementedError otherwise)
+    names = BATCHES[case["method"]] if eng != "sh" else [case.get("sh_mol", "CH2O")] * 2
     S, C, Zs = _batch(names, g)
     sett, xl = _engine_args(eng, case["method"])
     out = md.output_cfg("/nonexistent/c12", molid=[0], data=0, coordinates=0, velocities=0, forces=0)
@@ -230,7 +234,7 @@ def _identity(case):
             try:
                 if mol is None:
                     mol, mdo = md.build_md(eng, S, C, sett, dt, T, out, damp=tau, xl=xl)
-                    sett_shared = mdo.seqm_parameters if eng != "sh" else mol.seqm_parameters
+                    sett_shared = mol.seqm_parameters
                 else:
                     mdo = md.make_engine(eng, sett_shared, dt, T, out, damp=tau, xl=xl)
                     mol.velocities = None
@@ -267,7 +271,7 @@ def _ensemble(case):
     acc = _Acc()
     eng, dt, tau, T = case["engine"], case["dt"], case["tau"], case["T"]
     g = np.random.default_rng(case["geom_seed"])
-    names = ["H2O", "CH4", "NH3"] if eng != "sh" else ["CH2O", "H2O"]
+    names = ["H2O", "CH4", "NH3"] if eng != "sh" else ["CH2O", "CH2O"]
     S, C, Zs = _batch(names, g)
     sett, xl = _engine_args(eng, "AM1")
     out = md.output_cfg("/nonexistent/c12", molid=[0], data=0, coordinates=0, velocities=0, forces=0)
@@ -280,7 +284,7 @@ def _ensemble(case):
         mol, mdo = md.build_md(eng, S, C, sett, dt, T, out, damp=tau, xl=xl)
         mdo.initialize(mol, remove_com=None, learned_parameters={}, steps=None)
         mass = mol.mass.detach().cpu().numpy()[..., 0]
-        sett_shared = mdo.seqm_parameters if eng != "sh" else mol.seqm_parameters
+        sett_shared = mol.seqm_parameters
         md0 = md.make_engine(eng, sett_shared, dt, 0.0, out, damp=tau, xl=xl)
         mol.velocities = None
         md0.initialize(mol, remove_com=None, learned_parameters={}, steps=None)
